@@ -111,7 +111,9 @@ def make_cases(chk):
     return gens
 
 
-def add_dilute(g, rng):
+def add_dilute(g, rng, keep=0.3, named=0.4):
+    """one dilution of a reachable container; with probability `keep` the undiluted value stays in the pool as well (values are
+    immutable: it may be diluted or used again), with probability `named` the call passes name="""
     cands = []
     for v in g.containers:
         c = g.impl.env[v]
@@ -146,9 +148,14 @@ def add_dilute(g, rng):
     if (nu, du) == ('mol', 'kg') and rng.random() < 0.5:
         doc = {'s': 'm', 'v': val}
     op = {'op': 'dilute', 'v': v, 'solute': sid, 'c': doc, 'solvent': solvent['id'], 'out': g.fresh()}
-    o = g.emit(op, f"dilute:{nu}/{du}")
+    if rng.random() < named:
+        op['named'] = True
+    o = g.emit(op, f"dilute:{nu}/{du}" + (':named' if op.get('named') else ''))
     if o['ok']:
-        g.replace(g.containers, v, op['out'])
+        if rng.random() < keep:
+            g.containers.append(op['out'])
+        else:
+            g.replace(g.containers, v, op['out'])
 
 
 def nontrivial(prog, obs):
